@@ -53,3 +53,13 @@ Theorem C17_generated_set_event_is_the_model : forall rt t until d, (1 <= d)%nat
   end.
 Proof. exact tie_set_event. Qed.
 Print Assumptions C17_generated_set_event_is_the_model.
+
+(* known finding F20 as a theorem about the model: a consumer's step for t can begin only when its producer's progress has
+   passed t; in real-time mode that progress is the clock's tick ceil(passed / r) - so more than r * t has elapsed when the
+   consumer's step may begin, and the too-slow check made when the step ends reports it, however fast the simulators answer *)
+From MV Require Ext.F20.
+Theorem C17_paced_consumer_is_always_too_slow : forall r strict t passed_at_begin passed_at_end,
+  0 < r -> t < rt_progress passed_at_begin r -> passed_at_begin <= passed_at_end ->
+  rt_check (Some r) strict passed_at_end t <> InTime.
+Proof. exact Ext.F20.paced_consumer_is_always_too_slow. Qed.
+Print Assumptions C17_paced_consumer_is_always_too_slow.
